@@ -1,39 +1,125 @@
-import sys, threading, time, faulthandler, asyncio, gc
-from mpservice.streamer import Stream
-from mpservice.streamer._streamer_async import SyncIter, AsyncBuffer
-faulthandler.dump_traceback_later(20, exit=True)
-def src(fail_after=None):
-    for i in range(100):
+"""C05 runtime battery: early close / failure at every small size, for Buffer, SyncIter, AsyncBuffer, fifo_stream, async_fifo_stream,
+parmap.  A hang (watchdog) or a leaked thread or a wrong failure is the symptom.  Exit 0 = clean."""
+import sys, threading, time, faulthandler, asyncio, concurrent.futures
+from mpservice.streamer import Stream, fifo_stream, async_fifo_stream
+from mpservice.streamer._streamer_async import SyncIter, AsyncBuffer, AsyncStream
+faulthandler.dump_traceback_later(100, exit=True)
+pool = concurrent.futures.ThreadPoolExecutor(4)
+
+
+def leftover():
+    time.sleep(0.05)
+    return [t.name for t in threading.enumerate() if t is not threading.main_thread() and t.name != 'QueueFeederThread'
+            and not t.name.startswith('ThreadPoolExecutor-0') and not t.name.startswith('asyncio_')]
+
+
+def src(n=100, fail_after=None, exc=ValueError):
+    for i in range(n):
+        if fail_after is not None and i > fail_after:
+            raise exc(i)
+        yield i
+
+
+async def asrc(n=100, fail_after=None):
+    for i in range(n):
         if fail_after is not None and i > fail_after:
             raise ValueError(i)
         yield i
-for n in (1, 2, 3):
+
+
+def submit(x):
+    return pool.submit(lambda v: v * 2, x)
+
+
+# ---- Buffer: early break at every small size, with and without a source failing right after the break
+for n in (1, 2, 3, 5):
     for fail in (None, 4):
-        it = iter(Stream(src(fail)).buffer(n))
+        it = iter(Stream(src(100, fail)).buffer(n))
         for x in it:
             if x == 3:
                 time.sleep(0.05)
                 break
         it.close()
-        alive = [t.name for t in threading.enumerate() if t is not threading.main_thread()]
-        assert not alive, alive
-        print('buffer', n, 'fail', fail, 'closed; threads left:', alive)
-async def agen():
-    for i in range(100):
-        yield i
-it = iter(SyncIter(agen()))
+        assert not leftover(), ('buffer', n, fail, leftover())
+    # failure reaches the consumer exactly once, after all earlier outputs
+    got = []
+    try:
+        for x in Stream(src(100, 6)).buffer(n):
+            got.append(x)
+        raise SystemExit('no failure raised')
+    except ValueError as e:
+        assert got == list(range(7)) and e.args == (7,), (n, got, e)
+    assert not leftover()
+
+# ---- fifo_stream / parmap: early close with the feeder parked in put, capacity 1..3
+for cap in (1, 2, 3):
+    it = fifo_stream(src(100), submit, capacity=cap)
+    assert next(it) == 0
+    time.sleep(0.2)        # let the feeder fill the queue and block
+    it.close()
+    assert not leftover(), ('fifo_stream', cap, leftover())
+    it = fifo_stream(src(100, 5), submit, capacity=cap)
+    got = []
+    try:
+        for y in it:
+            got.append(y)
+        raise SystemExit('no failure raised')
+    except ValueError as e:
+        assert got == [0, 2, 4, 6, 8, 10] and e.args == (6,), (cap, got, e)
+    assert not leftover()
+for conc in (1, 2):
+    it = iter(Stream(src(100)).parmap(lambda v: v + 1, executor='thread', concurrency=conc))
+    assert next(it) == 1
+    time.sleep(0.2)
+    it.close()
+    assert not leftover(), ('parmap', conc, leftover())
+
+# ---- SyncIter
+it = iter(SyncIter(asrc()))
 for x in it:
     if x == 3:
-        time.sleep(0.3); break
+        time.sleep(0.3)
+        break
 it.close()
-print('SyncIter closed', [t.name for t in threading.enumerate() if t is not threading.main_thread()])
+assert not leftover(), ('SyncIter', leftover())
+
+
+# ---- async counterparts
+async def afunc(x):
+    async def w():
+        await asyncio.sleep(0.001)
+        return x * 2
+    return asyncio.get_running_loop().create_task(w())
+
+
 async def main():
-    for n in (1, 2):
-        it = AsyncBuffer(agen(), n).__aiter__()
+    for n in (1, 2, 5):
+        it = AsyncBuffer(asrc(), n).__aiter__()
         async for x in it:
             if x == 3:
-                await asyncio.sleep(0.05); break
+                await asyncio.sleep(0.05)
+                break
         await it.aclose()
-        print('AsyncBuffer', n, 'closed', [t.name for t in threading.enumerate() if t is not threading.main_thread()])
+        assert not leftover(), ('AsyncBuffer', n, leftover())
+        got = []
+        try:
+            async for x in AsyncBuffer(asrc(100, 6), n):
+                got.append(x)
+            raise SystemExit('no failure raised')
+        except ValueError as e:
+            assert got == list(range(7)) and e.args == (7,), ('AsyncBuffer failure', n, got, e)
+        assert not leftover()
+    for cap in (1, 2, 3):
+        it = async_fifo_stream(asrc(), afunc, capacity=cap)
+        assert await it.__anext__() == 0
+        await asyncio.sleep(0.2)
+        await asyncio.wait_for(it.aclose(), 20)
+        got = []
+        try:
+            async for y in async_fifo_stream(asrc(100, 5), afunc, capacity=cap):
+                got.append(y)
+            raise SystemExit('no failure raised')
+        except ValueError as e:
+            assert got == [0, 2, 4, 6, 8, 10] and e.args == (6,), (cap, got, e)
 asyncio.run(main())
 print('ALL OK')
